@@ -360,10 +360,14 @@ class Body:
             elif k == "Field":
                 if e[0] == "agg" and pr["i"] < len(e[2]) and e[1].get("agg") in ("Tuple", "Adt", "Closure"):
                     e = e[2][pr["i"]]
+                elif e[0] == "phi" and e[2] and all(a[0] == "agg" and pr["i"] < len(a[2]) and a[1].get("agg") in ("Tuple", "Adt") for a in e[2]):
+                    # every definition is a constructor: the field is one of the corresponding operands
+                    alts = [a[2][pr["i"]] for a in e[2]]
+                    e = alts[0] if len(alts) == 1 else ("phi", e[1], alts)
                 else:
                     e = ("field", e, pr["i"])
             elif k == "Downcast":
-                e = ("downcast", e, pr["variant"])
+                e = _project_variant(e, pr["variant"])
             elif k == "Index":
                 e = ("index", e, self._trace_local(pr["local"], depth + 1, seen))
             elif k == "ConstantIndex":
@@ -525,6 +529,34 @@ class Body:
         return "%s:%d" % (sp["file"], sp["line"])
 
 
+TRY_BRANCH = ("<std::result::Result<T, E> as std::ops::Try>::branch", "<std::option::Option<T> as std::ops::Try>::branch")
+
+
+def _project_variant(e, variant):
+    """`e as variant` where e is known to be built by constructors (an aggregate, or several definitions each of
+    which is an aggregate): only the definitions of that variant can be meant.  Anything else stays symbolic."""
+    if e[0] == "agg" and e[1].get("agg") == "Adt":
+        return e if e[1].get("variant") == variant else ("never", variant)
+    if e[0] == "phi" and e[2] and all(a[0] == "agg" and a[1].get("agg") == "Adt" for a in e[2]):
+        alts = [a for a in e[2] if a[1].get("variant") == variant]
+        if len(alts) == 1:
+            return alts[0]
+        if alts:
+            return ("phi", e[1], alts)
+        return ("never", variant)
+    if variant == "Continue" and e[0] == "call" and e[1] and e[1].get("path") in TRY_BRANCH and e[2]:
+        # `x?` on a value known to be built by constructors: the continue payload is the Ok/Some payload
+        inner = e[2][0]
+        want = "Ok" if "Result" in e[1]["path"] else "Some"
+        if inner[0] == "agg" or (inner[0] == "phi" and inner[2] and all(a[0] == "agg" for a in inner[2])):
+            p = _project_variant(inner, want)
+            if p[0] == "agg" and len(p[2]) == 1:
+                return ("agg", {"agg": "Adt", "adt": "std::ops::ControlFlow", "variant": "Continue", "via": "?"}, [p[2][0]])
+            if p[0] == "phi" and all(len(a[2]) == 1 for a in p[2]):
+                return ("agg", {"agg": "Adt", "adt": "std::ops::ControlFlow", "variant": "Continue", "via": "?"}, [("phi", p[1], [a[2][0] for a in p[2]])])
+    return ("downcast", e, variant)
+
+
 def strip_refs(e):
     """Peel ref/deref/reborrow/identity conversions off an expression."""
     while True:
@@ -637,9 +669,12 @@ def norm_ty(t):
 
 
 class Facts:
-    def __init__(self, path):
-        with open(path) as fh:
-            self.j = json.load(fh)
+    def __init__(self, path, j=None):
+        if j is None:
+            with open(path) as fh:
+                j = json.load(fh)
+        self.j = j
+        self.inlined = None
         self.path = path
         self.crate = self.j["crate"]
         self.features = self.j["features"]
